@@ -1092,6 +1092,20 @@ func (s *scn) drain(r *replica) bool {
 			s.vio("C03", "unverified-ibtp-accepted", proofClass(mt.note)+"/by-a-node-handed-its-blocks-back-to-back", "block %d tx %d: IBTP %s-%s-%d was accepted by replica %d, which was handed blocks %d..%d back to back, although its proof is %s for the rule in force after block %d (the node that executed one block at a time refused it: %q)",
 				o.Height, j, ib.From, ib.To, ib.Index, r.id, outs[0].Height, outs[len(outs)-1].Height, mt.note, o.Height-1, he.ref.Receipts[j].Ret)
 		}
+		switch s.prop {
+		case "C02", "C04", "C05", "C06", "C16":
+			// the judged node refused this IBTP and its oracles found nothing wrong with that; a node that accepts it when
+			// it is handed its blocks back to back has accepted what the property says must be rejected
+			for j, tx := range he.txs {
+				if tx.IBTP == nil || j >= len(o.Receipts) || j >= len(he.ref.Receipts) || skip[j] || he.metas[j].kind == "entry" {
+					continue
+				}
+				if he.ref.Receipts[j].Status == pb.Receipt_FAILED && o.Receipts[j].Status == pb.Receipt_SUCCESS {
+					ib := tx.IBTP
+					s.vio(s.prop, "ibtp-accepted-by-a-node-handed-its-blocks-back-to-back", he.metas[j].kind+"/"+ib.Type.String(), "block %d tx %d: IBTP %s-%s-%d (%s) was refused by the node that executed one block at a time (%q) and accepted by replica %d, which was handed blocks %d..%d back to back", o.Height, j, ib.From, ib.To, ib.Index, he.metas[j].note, he.ref.Receipts[j].Ret, r.id, outs[0].Height, outs[len(outs)-1].Height)
+				}
+			}
+		}
 		delete(s.hist, o.Height)
 		if len(s.res.Violations) > 0 {
 			s.fatal = true
